@@ -1,1 +1,43 @@
 // Kani contract harnesses for /repo/arrow-buffer/src/pool.rs (child module: sees private items via super::)
+//
+// NOTE: the `pool` module only exists with cargo feature `pool`; bin/check builds without features,
+// so the harness below is NOT registered as a unit (no `@unit` line — written with a space below on
+// purpose). It verifies with:
+//   cargo kani -p arrow-buffer --lib --features pool -Z stubbing -Z unstable-options \
+//       --harness pool::verif_kani::pool_used_is_sum_of_live
+use super::*;
+
+// Contract (C16, accounting clause): after every step of reserve / reserve / resize (grow or shrink)
+// / drop / drop (drop order symbolic), `used()` (= `allocated()`) equals the sum of the sizes of the
+// reservations that are alive, `available()` = isize::MAX - used, each reservation reports its own
+// size, and after the last drop the pool is back to 0. Sizes are arbitrary below 2^62 (their sum must
+// not wrap: the counter is a wrapping atomic add).
+// @ unit name=pool_used_is_sum_of_live props=C16 kind=bounded bound=2_reservations_1_resize_sizes<2^62 fns=TrackingMemoryPool::reserve,TrackingMemoryPool::used,TrackingMemoryPool::available,Tracker::resize,Tracker::drop tier=quick mem=2 timeout=200
+#[kani::proof]
+#[kani::unwind(4)]
+fn pool_used_is_sum_of_live() {
+    const LIM: usize = 1 << 62;
+    let pool = TrackingMemoryPool::default();
+    assert!(pool.used() == 0 && pool.allocated() == 0 && pool.capacity() == usize::MAX);
+    let (a, b, c): (usize, usize, usize) = (kani::any(), kani::any(), kani::any());
+    kani::assume(a < LIM && b < LIM && c < LIM);
+    let mut r1 = pool.reserve(a);
+    assert!(r1.size() == a && pool.used() == a && pool.available() == isize::MAX - a as isize);
+    let r2 = pool.reserve(b);
+    assert!(r2.size() == b && pool.used() == a + b);
+    r1.resize(c);
+    assert!(r1.size() == c && r2.size() == b && pool.used() == c + b && pool.allocated() == c + b);
+    kani::cover!(c > a);
+    kani::cover!(c < a);
+    kani::cover!(c == a);
+    if kani::any() {
+        drop(r1);
+        assert!(pool.used() == b);
+        drop(r2);
+    } else {
+        drop(r2);
+        assert!(pool.used() == c);
+        drop(r1);
+    }
+    assert!(pool.used() == 0);
+}
